@@ -248,6 +248,15 @@ def case(ctx, i, rng):
         # a parse that fails while the defaults of the selected class are added must not influence what follows
         ob = call(parser_for(mod.Base, mod).parse_args, ["--a=BadDef"])
         ctx.count("ev.failing_parse_in_class_defaults." + ("rejected" if ob.rejected else ob.kind))
+    if rng.random() < 0.3:
+        # a command line rejected inside its --cfg after a class was chosen: nothing of it may influence later parses
+        from jsonargparse import ActionConfigFile
+
+        q = ArgumentParser(exit_on_error=False)
+        q.add_argument("--cfg", action=ActionConfigFile)
+        q.add_argument("--a", type=mod.Base)
+        ob = call(q.parse_args, ["--a=SubB", "--a.q=true", "--cfg", rng.choice(["{", '{"a": {"init_args": {"zz": 1}}}', "/no/such/file.yaml"])])
+        ctx.count("ev.rejected_cfg_after_class_choice." + ("rejected" if ob.rejected else ob.kind))
     short_vs_explicit(ctx, rng, mod)
     nested(ctx, rng, mod)
     class_change(ctx, rng, mod)
@@ -483,6 +492,22 @@ def class_change(ctx, rng, mod):
             ctx.violation("class_path", "class-change-loses-valid-init_arg", dict(argv=argv, parameter=k, expected=v, result=short(a)))
             return
     check_instantiation(ctx, mod, p, o.value, cls, must, None, dict(kind="class-change", argv=argv))
+    # a class change in one parse leaves the declared default spec alone: the next plain parse on the same parser gives the
+    # default class with its configured init_args, as a fresh parser does
+    from jsonargparse import lazy_instance
+
+    mk = lambda: parser_for(mod.Base, mod, default=lazy_instance(mod.SubA, p0=11, extra=3.0))  # noqa: E731
+    pd = mk()
+    first = rng.choice([(["--a=Req", "--a.need=1"], {"defaults": False}), (["--a=SubB"], {"defaults": False}), (["--a=Req", "--a.need=2"], {}), ([f"--a={M}.Base"], {"defaults": False})])
+    o1 = call(pd.parse_args, list(first[0]), **first[1])
+    o2, o3 = call(pd.parse_args, []), call(mk().parse_args, [])
+    ctx.count("mon.default_spec_after_class_change")
+    if o2.accepted and o3.accepted:
+        d = same(strip_prov(o3.value).as_dict(), strip_prov(o2.value).as_dict())
+        if d:
+            ctx.violation("class_path", "default-spec-changed-by-an-earlier-class-change", dict(first_parse=first[0], first_kwargs=first[1], first_outcome=o1.brief(), fresh=short(o3.value), reused=short(o2.value), at=d[0], why=d[1]))
+    elif o2.accepted != o3.accepted:
+        ctx.violation("class_path", "default-spec-changed-by-an-earlier-class-change", dict(first_parse=first[0], fresh=o3.brief(), reused=o2.brief()))
 
 
 def run_shard(ctx):
